@@ -579,7 +579,75 @@ def split_top(s):
 
 
 # ---- symbolic execution: decision trees
+_HELPERS = {}     # name -> (params, body) of the small functions of the translation unit that calls may be replaced by
+
+
+def c_helpers(src):
+    """every function definition `T name(params) { … }` / `T cls::name(params) { … }` of the source whose body could be parsed"""
+    out = {}
+    s = re.sub(r'/\*.*?\*/', ' ', src, flags=re.S)
+    s = re.sub(r'//[^\n]*', ' ', s)
+    for m in re.finditer(r'\b([A-Za-z_]\w*)\s*\(([^(){};]*)\)\s*(?:const\s*)?(?:noexcept\s*)?\{', s):
+        name = m.group(1)
+        if name in ('if', 'for', 'while', 'switch', 'catch', 'return', 'sizeof') or name in out:
+            continue
+        try:
+            fn = c_function(s[m.start():], name)
+        except Untranslatable:
+            continue
+        if fn is not None and None not in fn[0]:
+            out[name] = fn
+    return out
+
+
+def _tree_expr(t):
+    if t[0] == 'ret' and t[1] is not None:
+        return t[1]
+    if t[0] == 'if':
+        return ('tern', t[1], _tree_expr(t[2]), _tree_expr(t[3]))
+    raise Untranslatable('C: helper does not return a value on every path')
+
+
+def _pure(e):
+    """no calls other than max / min"""
+    if not isinstance(e, tuple):
+        return True
+    if e and e[0] == 'call':
+        if not (e[1][0] == 'id' and e[1][1] in ('max', 'min')):
+            return False
+    return all(_pure(a) for a in e if isinstance(a, tuple))
+
+
+def c_inline(e, depth=0):
+    """calls of small pure helper functions of the same file replaced by their value"""
+    if not isinstance(e, tuple) or not e:
+        return e
+    if e[0] == 'call':
+        f = e[1]
+        name = f[1] if f[0] == 'id' else f[2] if (f[0] == 'member' and f[1] == ('id', 'this')) else None
+        args = tuple(c_inline(a, depth) for a in e[2])
+        if name in _HELPERS and depth < 4:
+            params, body = _HELPERS[name]
+            if len(params) == len(args):
+                try:
+                    holes = [('id', f'_A_{depth}_{i}') for i in range(len(args))]
+                    v = _tree_expr(CExec().run(body, dict(zip(params, holes))))
+                    v = c_inline(v, depth + 1)
+                    if _pure(v):
+                        for h, a in zip(holes, args):
+                            v = c_replace(v, h, a)
+                        return v
+                except Untranslatable:
+                    pass
+        return ('call', f, args)
+    return tuple(c_inline(a, depth) if isinstance(a, tuple) else a for a in e)
+
+
 def c_subst(e, env):
+    return c_inline(c_subst0(e, env))
+
+
+def c_subst0(e, env):
     if e is None:
         return None
     k = e[0]
@@ -588,19 +656,19 @@ def c_subst(e, env):
     if k == 'id':
         return env.get(e[1], e)
     if k == 'call':
-        return ('call', c_subst(e[1], env) if e[1][0] != 'id' else e[1], tuple(c_subst(a, env) for a in e[2]))
+        return ('call', c_subst0(e[1], env) if e[1][0] != 'id' else e[1], tuple(c_subst0(a, env) for a in e[2]))
     if k == 'idx':
-        return ('idx', c_subst(e[1], env), c_subst(e[2], env))
+        return ('idx', c_subst0(e[1], env), c_subst0(e[2], env))
     if k == 'member':
-        return ('member', c_subst(e[1], env), e[2])
+        return ('member', c_subst0(e[1], env), e[2])
     if k == 'un':
-        return ('un', e[1], c_subst(e[2], env))
+        return ('un', e[1], c_subst0(e[2], env))
     if k == 'cast':
-        return c_subst(e[1], env)          # integer / pointer casts are transparent for what is extracted here
+        return c_subst0(e[1], env)          # integer / pointer casts are transparent for what is extracted here
     if k == 'bin':
-        return ('bin', e[1], c_subst(e[2], env), c_subst(e[3], env))
+        return ('bin', e[1], c_subst0(e[2], env), c_subst0(e[3], env))
     if k == 'tern':
-        return ('tern', c_subst(e[1], env), c_subst(e[2], env), c_subst(e[3], env))
+        return ('tern', c_subst0(e[1], env), c_subst0(e[2], env), c_subst0(e[3], env))
     raise Untranslatable(f'C: side effect inside an expression ({k})')
 
 
@@ -855,6 +923,8 @@ def analyse_next_cut(src):
     params, body = fn
     if len(params) != 2 or None in params:
         raise Untranslatable('next_cut: expected (buffer, final)')
+    _HELPERS.clear()
+    _HELPERS.update({k: v for k, v in c_helpers(src).items() if k != 'next_cut'})
     pbuf, pfinal = params
     mn, mx = _member_names(src)
     # the size of the buffer, however it is reached: <buffer>.request().size
